@@ -108,23 +108,47 @@ class Scenario:
         return self.engine_kinds[eng]
 
 
+_ALSO_ALLOWED: list = []  # engine kinds an enclosing preferred-engine call may legitimately place the operation in
+
+
 def _restriction_error(expr, kind):
     r = A.engine_restriction(expr)
     if r is None:
         return False
-    return (r == "iteration") != (kind == "it")
+    want = "it" if r == "iteration" else "sql"
+    return want != kind and want not in _ALSO_ALLOWED
 
 
-def ref_apply(val: RefVal, op, scen: Scenario, marker_has_sort: bool | None = None) -> RefVal:
-    """Apply one operation to a reference value; raise RefReject for ill-formed calls."""
+def ref_apply(
+    val: RefVal, op, scen: Scenario, marker_has_sort: bool | None = None, observed_engine: str | None = None
+) -> RefVal:
+    """Apply one operation to a reference value; raise RefReject for ill-formed calls.
+
+    ``marker_has_sort`` / ``observed_engine`` are the two observations of the real result the
+    reference needs (DESIGN 2.2): whether the public root Select marker still carries the sort, and
+    in which engine a call with ``transfer=True`` placed its result (the documentation leaves that
+    to whether backtracking succeeded)."""
     k = op[0]
     kind = scen.kind(val.eng)
     sql = kind == "sql"
     rows, cols = val.rows, val.cols
     rep = dataclasses.replace
     if k == "pe":
-        # preferred-engine options never change meaning (C03); typing of engine mismatch is C03/C20's business
-        return ref_apply(val, op[1], scen, marker_has_sort)
+        # preferred-engine options never change meaning (C03).  With transfer=True the result may live in
+        # the preferred engine (if backtracking did not place the operation upstream): follow the observation.
+        _, inner, pref, _bt, do_transfer, _req = op
+        if inner[0] == "join":
+            pref = scen_operand(val, inner[1], scen).eng
+        # an engine-restricted expression is acceptable if the preferred engine supports it (whether the
+        # call then succeeds by backtracking/transfer or raises EngineError is judged on the real tree)
+        _ALSO_ALLOWED.append(scen.kind(pref))
+        try:
+            if do_transfer and pref != val.eng and observed_engine == pref:
+                val = ref_apply(val, ("xfer", pref), scen)
+                return ref_apply(val, inner, scen, None)
+            return ref_apply(val, inner, scen, marker_has_sort)
+        finally:
+            _ALSO_ALLOWED.pop()
     if k == "calc":
         _, t, e = op
         errs = set()
@@ -187,6 +211,13 @@ def ref_apply(val: RefVal, op, scen: Scenario, marker_has_sort: bool | None = No
             det = (val.det or total) and not val.amb
         srt = need if val.srt is None else (val.srt | need)
         return rep(val, rows=tuple(out), det=det, srt=srt, psort=sql)
+    if k == "rawslice":
+        _, start, stop, step = op
+        if step not in (None, 1) or (start is not None and start < 0) or (stop is not None and stop < (start or 0)):
+            raise RefReject({"ValueError", "TypeError"}, "slice negative, reversed or stepped")
+        return ref_apply(val, ("slice", start or 0, stop), scen)
+    if k == "index":
+        raise RefReject({"ValueError", "TypeError"}, "non-slice key")
     if k == "slice":
         _, start, stop = op
         if start == 0 and stop is None:
